@@ -135,7 +135,7 @@ theorem subscribe_accepted_is_statically_valid_partial (p : Subscribe) :
       p.subscriptions ≠ [] ∧ (∀ i, p.subscriptionId = some i → 1 ≤ i ∧ i ≤ 268435455) ∧ Spec.upsOk p.userProps = true := by
   unfold validateOutbound vSubscribeOutbound
   simp only [bind_ok_iff, okIf_ok, vUserProps_ok]
-  intro ⟨_, h2, h3, h4⟩
+  intro ⟨_, h2, h3, _, h4⟩
   refine ⟨?_, ?_, h4⟩
   · intro h; rw [h] at h2; simp at h2
   · intro i hi; rw [hi] at h3; simpa using h3
